@@ -102,7 +102,7 @@ func CancelFamily() []*prog.Program {
 	gen.MergedArrival = true
 	ps = append(ps, gen.GatewayTable("xor", 1, -1, 2, -1))
 	gen.MergedArrival = false
-	ps = append(ps, gen.ParallelNM(2, 1, false), funnel("end", 4), funnel("and", 4), gen.GatewayTable("xor", 1, 0, 1, -1))
+	ps = append(ps, gen.ParallelNM(2, 1, false), gen.GatewayTable("xor", 1, 0, 1, -1))
 	return ps
 }
 
